@@ -39,12 +39,12 @@ CHECKS = {
         'technique': 'Hypothesis structured generation vs select-then-fold reference model',
     },
     'C13': {
-        'text': 'Hypothesis nests of IF/IFS/IFERROR up to depth 5, bare and embedded in operators/functions, evaluated under every truth assignment (true/zero/blank/5) of their condition cells through overrides and compared with a lazy reference evaluator (untaken failing branches and conditions must not surface; failures of every kind: division by zero, error-valued cell, cell whose own formula raises, date function of a text, ranges of different sizes, lookup outside the table, text that is no number; #-texts that are no error values)',
+        'text': 'Hypothesis nests of IF/IFS/IFERROR up to depth 5 (conditions that fail included), bare and embedded in operators/functions, evaluated under every truth assignment (true/zero/blank/5) of their condition cells through overrides and compared with a lazy reference evaluator (untaken failing branches and conditions must not surface; failures of every kind: division by zero, error-valued cell, cell whose own formula raises, date function of a text, ranges of different sizes, lookup outside the table, text that is no number; #-texts that are no error values)',
         'note': 'trusted: vf/ref/formula.py lazy semantics; how error values travel through other operators is not asserted',
         'technique': 'Hypothesis ASTs x exhaustive truth assignments vs lazy reference evaluator',
     },
     'C14': {
-        'text': 'Hypothesis tables (ascending/unsorted/duplicate/text/blank keys, width 1-4) with VLOOKUP exact/approximate/omitted, MATCH 0/1/omitted, XMATCH from start/end and binary over ascending keys, mixed-case text keys, INDEX over every (r,c) around the area, INDEX(MATCH), COLUMN, the same unqualified texts on a twin sheet with other payload; ADDRESS exhaustively over all 16384 columns x sampled rows; oracle = independent linear search / direct indexing / bijective base-26',
+        'text': 'Hypothesis tables (ascending/unsorted/duplicate/text/blank keys, width 1-4) with VLOOKUP exact/approximate/omitted, MATCH 0/1/omitted, XMATCH from start/end and binary over ascending keys, mixed-case text keys, INDEX over every (r,c) around the area, INDEX(MATCH), COLUMN, the same unqualified texts on a twin sheet with other payload, whole-column spellings of the key column / table and keys planted below the data through the executor (positions are row numbers); ADDRESS exhaustively over all 16384 columns x sampled rows; oracle = independent linear search / direct indexing / bijective base-26',
         'note': 'trusted: vf/props/c14.py oracles; approximate matching only on ascending numeric keys; 0-index INDEX and binary XMATCH modes not asserted',
         'technique': 'Hypothesis + boundary construction vs reference search; exhaustive ADDRESS sweep',
     },
@@ -89,7 +89,7 @@ CHECKS = {
         'technique': 'Hypothesis stateful testing vs fresh-instance reference; process / hash-seed / thread differential on sha256; generated thread schedules',
     },
     'C18': {
-        'text': 'Hypothesis workbooks of 1-5 sheets (some empty), sparse cells with empty rows/columns inside the used range, first used cell away from A1, far cells (row <= 3000, column <= 400), stale <dimension> records, values int / float / bool / text (printable + unicode) / date / date-time / formulas / ArrayFormula; every planted coordinate, its eight neighbours, the used-range corners and sampled blanks queried through Executor.get_cell on the class object and on the file-loaded class; get_titles / get_sheets_size vs the model, asked again of new instances after another executor on the class was given a cell beyond the used range; one Parser that kept its entry cell while it was moved from a decoy workbook (same title at another index) to the generated one',
+        'text': 'Hypothesis workbooks of 1-5 sheets (some empty), sparse cells with empty rows/columns inside the used range, first used cell away from A1, far cells (row <= 3000, column <= 400), stale <dimension> records, values int / float / bool / text (printable + unicode) / date / date-time / formulas / ArrayFormula; every planted coordinate, its eight neighbours, the used-range corners and sampled blanks queried through Executor.get_cell on the class object and on the file-loaded class; get_titles / get_sheets_size vs the model, asked again of new instances after another executor on the class was given a cell beyond the used range; chart sheets among the worksheets; COLUMN(area) formulas next to constants; one Parser that kept its entry cell while it was moved from a decoy workbook (same title at another index) to the generated one',
         'note': 'trusted: generator cell map normalised by xlsx storage rules, cross-checked against openpyxl\'s ordinary reader (disagreement = harness error); values restricted to what survives openpyxl itself',
         'technique': 'Hypothesis structured generation vs cell-map reference model (round trip through xlsx)',
     },
